@@ -47,20 +47,20 @@ CHECKS = {
         level='fault_enumeration', technique='every rule x every spelling of the offending declaration x every position among the top-level elements x 3 base orders; duplicate references over form pair x addressing pair x kind x layout',
         text='A well-formed base document (aliases, a bare name shared by two schemas, enums, a named reference, a group) receives exactly one rule-breaking declaration per document: duplicate table / alias / alias-equals-key / enum / group, '
              'a table listed twice in a group under every pair of spellings, a column-less table, dangling tables and columns in references (inline, short, block), indexes and groups, incl. existing bare names in absent schemas and aliases behind absent schemas; '
-             'every position and three element orders. Duplicate references are two identical copies in every pair of forms and addressings. The prescribed exception class is required and the control document must parse.',
+             'every position and three element orders. Duplicate references are two identical copies in every pair of forms and addressings (settings in either order and letter case). The prescribed exception class is required and the control document must parse.',
         note='Documents are written from templates in verif/props/c06.py (no pydbml involved). Copies of a duplicated reference carry no comments.',
         design='DESIGN.md §3 C06'),
     'C07': dict(
         level='fault_enumeration', technique='every fault kind at every site of the token stream of harness-written seed documents (faults invalid by construction), parsed by the real parser',
-        text='For five seed documents (two models, three styles) every token boundary receives each stray token, every closer and closing quote is deleted, every closer / opener doubled, every column loses its type, every settings list '
+        text='For seven seed documents (three models, one of them with properties and parsed with allow_properties on) every token boundary receives each stray token, every closer and closing quote is deleted, every closer / opener doubled, every settings list and body written twice in a row, every header name and alias clause written twice, every column loses its type, every settings list '
              'receives an unknown word / key:value at every position (and is emptied / given a trailing comma), every index type, reference operator, action and colour is replaced by each invalid value, and the document is cut at every boundary '
-             'that leaves a construct open; every line start receives a comment ending in a backslash, quote, brace ... followed by a non-DBML line, and every element keyword is glued to the following name. Every mutated document must raise a parse error (or a library / column-less error); a returned Database or any other exception class is a violation.',
+             'that leaves a construct open; every line start receives a comment ending in a backslash, quote, brace ... followed by a non-DBML line, and every element keyword is glued to the following name; files with non-UTF-8 bytes at token boundaries are given by path on the three routes where the library opens the file. Every mutated document must raise a parse error (or a library / column-less error); a returned Database or any other exception class is a violation.',
         note='Seeds contain no comments and no quote characters inside strings, so the faults cannot be swallowed. The token structure comes from verif/writer.py, not from pydbml.',
         design='DESIGN.md §3 C07'),
     'C08': dict(
         level='exploration', technique='exhaustive token soups (all sequences up to length 3), every single-token mutation of seed documents, every short raw string at every site of a template, named shapes; outcome classification under a watchdog; total rendering of accepted inputs',
         text='Every sequence of up to three tokens over the DBML token alphabet, every delete / duplicate / swap / replace-by-each-token mutation at every token of the seed documents, every string up to length 2 (quick) / 3 (thorough) over 18 punctuation-heavy '
-             'characters inserted unescaped at 44 sites (names, types, notes, comments, defaults, expressions, properties, colours, top level) and 50 named shapes are parsed; the outcome must be a Database, a parse error, a library error or SyntaxError, within 20 s; '
+             'characters inserted unescaped at 44 sites (names, types, notes, comments, defaults, expressions, properties, colours, top level) and 55 named shapes (incl. number literals beyond the interpreter's integer conversion limit) are parsed; the outcome must be a Database, a parse error, a library error or SyntaxError, within 20 s; '
              'for every accepted input .dbml and .sql of the database and of every element must evaluate.',
         note='Bounded alphabets and lengths: the clause "any input text whatsoever" is decided for these spaces only. Parenthesis nesting <= 6.',
         design='DESIGN.md §3 C08'),
@@ -70,7 +70,7 @@ CHECKS = {
              'columns and indexes addressed by object, twin, position and bad position) are explored breadth-first to the depth bound; after every operation the outcome class and every observer '
              '(iteration, positional and name lookup for current and stale names, kind lists, back-pointers of every universe object) must agree with the model, and a rejected operation must leave the '
              'implementation state hash unchanged.',
-        note='The reference model (verif/props/c09.py Model/TModel) is the statement turned into lists and a name set. Deleting via an equal twin may be rejected or remove the equal object (model follows the implementation). '
+        note='The reference model (verif/props/c09.py Model/TModel) is the statement turned into lists and a name set. Deleting via an equal twin may be rejected or remove the equal object (model follows the implementation); sticky notes compare by identity and adding the very same note object twice is not explored. '
              'Renames producing two contained tables with one name are outside the space.',
         design='DESIGN.md §3 C09'),
     'C10': dict(
@@ -84,7 +84,7 @@ CHECKS = {
         level='model_checking', technique='explicit-state exploration of call histories over the shared grammar state (warm and cold start, snapshot state graph, census), result-pair reachability + mutation oracle, stateless preemption-bounded schedule exploration with a controlled thread scheduler, fresh-process cross-check',
         text='Every history of up to 2 calls over 39 calls (13 documents x 3 option sets) and up to 3 (quick) / 4 (thorough) over a reduced alphabet is executed from the warm and from the cold shared state; every outcome must equal the isolated outcome, earlier results must stay intact, '
              'and the census of live pydbml objects must return to the baseline. Every ordered pair of results must share no mutable object and survive exhaustive mutation of the other. Pairs of calls run in two threads under every schedule with at most one preemption at any pydbml '
-             'line event (warm, and cold-start for some pairs) and must give their isolated outcomes; cold-start pairs are also preempted at the writes to shared grammar elements (every 8th write of two pairs in the quick tier, every write of three pairs in the thorough tier); the thorough tier adds every two-preemption schedule at call granularity and three-thread schedules. Every call is repeated in a fresh interpreter; a free-running multi-thread pass is supplementary.',
+             'line event (warm, and cold-start for some pairs) and must give their isolated outcomes; cold-start pairs are also preempted at the writes to shared grammar elements (every 8th write of three pairs in the quick tier, every write in the thorough tier); process-wide interpreter settings (recursion limit, switch interval, integer conversion limit, pyparsing's global switches) must be unchanged after every call; the thorough tier adds every two-preemption schedule at call granularity and three-thread schedules. Every call is repeated in a fresh interpreter; a free-running multi-thread pass is supplementary.',
         note='Scheduling points are line events in <repo>/pydbml frames; pyparsing frames run untraced between them. The shared-state snapshot (verif/heap.py) excludes display-name caches and is reported as evidence; the verdict is outcome equality, object sharing and the census.',
         design='DESIGN.md §3 C11'),
     'C12': dict(
